@@ -6,7 +6,7 @@
 use crate::arena::{self, Place};
 use crate::rng::{Fnv, Rng};
 use crate::runner::{Outcome, Scenario, Tier};
-use crate::shape::{self, DynOwned, GenCfg, Msg, Val};
+use crate::shape::{self, DynOwned, DynRef, GenCfg, Msg, Val};
 use crate::sut;
 use crc::*;
 use postcard::de_flavors::crc as decrc;
@@ -57,6 +57,26 @@ pub fn bitwise_crc(p: &AlgParams, data: &[u8]) -> u128 {
 }
 
 type PcResult<T> = Result<T, postcard::Error>;
+
+thread_local! {
+    /// decode into the borrowing target (`&'de str` / `&'de [u8]` taken from the input) instead of
+    /// the owning one: set per trace
+    static BORROWED: std::cell::Cell<bool> = const { std::cell::Cell::new(false) };
+    /// a borrowed field of the last borrowing decode did not lie inside the input slice
+    static BORROW_OUTSIDE: std::cell::Cell<bool> = const { std::cell::Cell::new(false) };
+}
+
+fn borrowed_mode() -> bool {
+    BORROWED.with(|b| b.get())
+}
+
+/// after a borrowing decode of `x`: every borrowed field must lie inside `x`
+fn note_borrows(x: &[u8]) {
+    let lo = x.as_ptr() as usize;
+    let hi = lo + x.len();
+    let bad = shape::take_borrows().iter().any(|b| b.len > 0 && (b.addr < lo || b.addr + b.len > hi));
+    BORROW_OUTSIDE.with(|f| f.set(bad));
+}
 
 /// result of a CRC-checked take: value, length of the remainder, remainder is the suffix of input
 pub struct Taken {
@@ -110,6 +130,19 @@ macro_rules! width_ops {
                 sut::call(|| sercrc::$to_vec::<_, 400>(&v, CRCS[a].digest()).map(|x| x.to_vec()))
             }
             fn take(x: &[u8], a: usize) -> Result<PcResult<Taken>, String> {
+                if borrowed_mode() {
+                    shape::clear_borrows();
+                    let r = sut::call(|| {
+                        decrc::$take_from_bytes::<DynRef>(x, CRCS[a].digest()).map(|(d, rem)| Taken {
+                            val: d.0,
+                            rem: rem.len(),
+                            suffix: rem.is_empty()
+                                || (rem.len() <= x.len() && rem.as_ptr_range().end == x.as_ptr_range().end),
+                        })
+                    });
+                    note_borrows(x);
+                    return r;
+                }
                 sut::call(|| {
                     decrc::$take_from_bytes::<DynOwned>(x, CRCS[a].digest()).map(|(d, rem)| Taken {
                         val: d.0,
@@ -121,6 +154,12 @@ macro_rules! width_ops {
                 })
             }
             fn from(x: &[u8], a: usize) -> Result<PcResult<Val>, String> {
+                if borrowed_mode() {
+                    shape::clear_borrows();
+                    let r = sut::call(|| decrc::$from_bytes::<DynRef>(x, CRCS[a].digest()).map(|d| d.0));
+                    note_borrows(x);
+                    return r;
+                }
                 sut::call(|| decrc::$from_bytes::<DynOwned>(x, CRCS[a].digest()).map(|d| d.0))
             }
             fn oneshot(x: &[u8], a: usize) -> u128 {
@@ -186,6 +225,18 @@ mod w32root {
         if a % 2 == 1 {
             return (w32::OPS.take)(x, a);
         }
+        if borrowed_mode() {
+            shape::clear_borrows();
+            let r = sut::call(|| {
+                postcard::take_from_bytes_crc32::<DynRef>(x, w32::CRCS[a].digest()).map(|(d, rem)| Taken {
+                    val: d.0,
+                    rem: rem.len(),
+                    suffix: rem.is_empty() || (rem.len() <= x.len() && rem.as_ptr_range().end == x.as_ptr_range().end),
+                })
+            });
+            note_borrows(x);
+            return r;
+        }
         sut::call(|| {
             postcard::take_from_bytes_crc32::<DynOwned>(x, w32::CRCS[a].digest()).map(|(d, rem)| Taken {
                 val: d.0,
@@ -197,6 +248,12 @@ mod w32root {
     fn from(x: &[u8], a: usize) -> Result<PcResult<Val>, String> {
         if a % 2 == 1 {
             return (w32::OPS.from)(x, a);
+        }
+        if borrowed_mode() {
+            shape::clear_borrows();
+            let r = sut::call(|| postcard::from_bytes_crc32::<DynRef>(x, w32::CRCS[a].digest()).map(|d| d.0));
+            note_borrows(x);
+            return r;
         }
         sut::call(|| postcard::from_bytes_crc32::<DynOwned>(x, w32::CRCS[a].digest()).map(|d| d.0))
     }
@@ -294,6 +351,9 @@ pub struct C10Trace {
     pub alg: usize,
     pub suffix: Vec<u8>,
     pub plan: DamagePlan,
+    /// decode into a target that borrows its strings and byte arrays from the input
+    #[serde(default)]
+    pub borrowed: bool,
 }
 
 mod p {
@@ -307,7 +367,8 @@ mod p {
     pub const BURST_STRADDLES_PAYLOAD_CHECKSUM: usize = 7;
     pub const NONBYTE_WIDTH_ALG: usize = 8;
     pub const LARGE_FRAME: usize = 9;
-    pub const NAMES: [&str; 10] = [
+    pub const BORROWING_TARGET: usize = 10;
+    pub const NAMES: [&str; 11] = [
         "damaged_frame_accepted_with_different_consumed_length_and_matching_checksum",
         "payload_with_multi_byte_block_takes",
         "decode_ok_under_damage",
@@ -318,6 +379,7 @@ mod p {
         "burst_straddles_payload_and_checksum",
         "algorithm_width_not_a_multiple_of_8",
         "frame_of_512_bytes_to_64_KiB",
+        "frames_decoded_into_a_target_that_borrows_from_the_input",
     ];
 }
 
@@ -690,6 +752,13 @@ fn check_damaged(c: &Ctx, d: &Damage, out: &mut Outcome<C10Trace>) -> bool {
 }
 
 fn exec_c10(t: &C10Trace, out: &mut Outcome<C10Trace>) {
+    BORROWED.with(|b| b.set(t.borrowed));
+    BORROW_OUTSIDE.with(|f| f.set(false));
+    exec_c10_inner(t, out);
+    BORROWED.with(|b| b.set(false));
+}
+
+fn exec_c10_inner(t: &C10Trace, out: &mut Outcome<C10Trace>) {
     let o = match ops(t.width) {
         Some(o) => o,
         None => {
@@ -820,7 +889,22 @@ fn exec_c10(t: &C10Trace, out: &mut Outcome<C10Trace>) {
             // `from_bytes_crc*` returns no remainder: the statement's "decoding of it" is the
             // frame itself, so it is given exactly the frame (what it does with bytes after the
             // checksum is only judged by the converse clause, under `AppendRechecksummed` below)
+            let take_borrow_outside = BORROW_OUTSIDE.with(|f| f.replace(false));
             let fr = (o.from)(&frame, t.alg);
+            let borrow_outside = take_borrow_outside || BORROW_OUTSIDE.with(|f| f.replace(false));
+            if t.borrowed {
+                out.probe(p::BORROWING_TARGET);
+                if borrow_outside && matches!((&tk, &fr), (Ok(Ok(_)), Ok(Ok(_)))) {
+                    out.fail(
+                        "C10",
+                        "intact-frame-decodes",
+                        key("intact"),
+                        "a string or byte array borrowed by the decoded value does not lie inside the input frame".to_string(),
+                        Some(C10Trace { plan: DamagePlan::One(Damage::None), ..t.clone() }),
+                    );
+                    return;
+                }
+            }
             out.evals += 2;
             out.extra[X_FAULT_FREE_CHECKS] += 2;
             let ok = match (&tk, &fr) {
@@ -1072,7 +1156,7 @@ impl Scenario for C10 {
                     val: Val::Seq(vec![Val::F64(1), Val::Bytes(data), Val::Str("abc".into()), Val::Uint(9)]),
                 },
             };
-            return C10Trace { msg, width, alg, suffix, plan: DamagePlan::Reduced { seed: rng.next(), multi: 24 } };
+            return C10Trace { msg, width, alg, suffix, plan: DamagePlan::Reduced { seed: rng.next(), multi: 24 }, borrowed: rng.chance(1, 3) };
         }
         C10Trace {
             msg,
@@ -1080,6 +1164,7 @@ impl Scenario for C10 {
             alg,
             suffix,
             plan: DamagePlan::Enumerate { seed: rng.next(), bursts, multi: 32 },
+            borrowed: rng.chance(1, 3),
         }
     }
     fn exec(t: &C10Trace, out: &mut Outcome<C10Trace>) {
@@ -1095,6 +1180,11 @@ impl Scenario for C10 {
         if t.alg > 0 {
             let mut c = t.clone();
             c.alg = 0;
+            v.push(c);
+        }
+        if t.borrowed {
+            let mut c = t.clone();
+            c.borrowed = false;
             v.push(c);
         }
         // a shrunk message has another frame: search all damages again
